@@ -13,6 +13,18 @@ import (
 // Shape facts for C14 (send loop): which functions of connection.go register sent packets with the
 // sent-packet handler, and that they are reached only through triggerSending; which functions write to the
 // connection directly. Purely syntactic (name-based call graph of one file, over-approximating callers).
+//
+// The fact the theorem compares (outsideSends) is SEMANTIC: it does not contain the name of any helper. For every
+// call edge that can put a packet on the wire / register one WITHOUT passing through triggerSending it records
+//   <where>:<what>
+// where = recv1rtt (the calling function is reachable from handleShortHeaderPacket through any chain of helpers
+//         that avoids triggerSending) | recvlong (… from handleLongHeaderPacket) | other, and
+// what  = wire:<Send|SendProbe|Write> (a raw sink: sendQueue.Send / sendQueue.SendProbe / conn.Write),
+//         register-site (a sentPacketHandler.SentPacket call), or register / wire / register+wire (a call into a
+//         function of triggerSending's call tree from which such a sink is reachable).
+// Calls of triggerSending itself are not listed (it is the gate: it consults SendMode). Named anchors: run,
+// triggerSending, handleShortHeaderPacket, handleLongHeaderPacket; named selectors: sentPacketHandler.SentPacket,
+// sendQueue.Send, sendQueue.SendProbe, conn.Write.
 func init() {
 	register("AmpShape", func(c *Ctx, w *LeanFile) error {
 		f, err := parser.ParseFile(token.NewFileSet(), filepath.Join(c.Repo, "connection.go"), nil, 0)
@@ -22,6 +34,7 @@ func init() {
 		calls := map[string]map[string]bool{} // function -> names it calls
 		registers := map[string]bool{}        // functions calling <x>.sentPacketHandler.SentPacket(
 		writes := map[string]bool{}           // functions calling <x>.conn.Write(
+		sinks := map[string][]string{}        // function -> raw sink sites in it ("wire:Send", "wire:SendProbe", "wire:Write", "register-site")
 		for _, d := range f.Decls {
 			fd, ok := d.(*ast.FuncDecl)
 			if !ok || fd.Body == nil {
@@ -44,9 +57,14 @@ func init() {
 					if inner, ok := fn.X.(*ast.SelectorExpr); ok {
 						if fn.Sel.Name == "SentPacket" && inner.Sel.Name == "sentPacketHandler" {
 							registers[name] = true
+							sinks[name] = append(sinks[name], "register-site")
 						}
 						if fn.Sel.Name == "Write" && inner.Sel.Name == "conn" {
 							writes[name] = true
+							sinks[name] = append(sinks[name], "wire:Write")
+						}
+						if (fn.Sel.Name == "Send" || fn.Sel.Name == "SendProbe") && inner.Sel.Name == "sendQueue" {
+							sinks[name] = append(sinks[name], "wire:"+fn.Sel.Name)
 						}
 					}
 				}
@@ -106,6 +124,88 @@ func init() {
 				}
 			}
 		}
+		for _, anchor := range []string{"run", "handleShortHeaderPacket", "handleLongHeaderPacket"} {
+			if _, ok := calls[anchor]; !ok {
+				return fmt.Errorf("connection.go: func %s not found", anchor)
+			}
+		}
+		// what a function can do to the wire / the accounting, through any chain of callees
+		does := func(start string) (reg, wire bool) {
+			seen := map[string]bool{}
+			var walk func(string)
+			walk = func(fn string) {
+				if seen[fn] {
+					return
+				}
+				seen[fn] = true
+				for _, k := range sinks[fn] {
+					if k == "register-site" {
+						reg = true
+					} else {
+						wire = true
+					}
+				}
+				for callee := range calls[fn] {
+					if _, isFunc := calls[callee]; isFunc {
+						walk(callee)
+					}
+				}
+			}
+			walk(start)
+			return
+		}
+		// functions reachable from an anchor without passing through triggerSending
+		avoiding := func(anchor string) map[string]bool {
+			seen := map[string]bool{}
+			var walk func(string)
+			walk = func(fn string) {
+				if seen[fn] || fn == "triggerSending" {
+					return
+				}
+				seen[fn] = true
+				for callee := range calls[fn] {
+					if _, isFunc := calls[callee]; isFunc {
+						walk(callee)
+					}
+				}
+			}
+			walk(anchor)
+			return seen
+		}
+		from1rtt, fromLong := avoiding("handleShortHeaderPacket"), avoiding("handleLongHeaderPacket")
+		var outsideSem []string
+		for fn, cs := range calls {
+			if fn == "triggerSending" || desc[fn] {
+				continue
+			}
+			where := "other"
+			if from1rtt[fn] {
+				where = "recv1rtt"
+			} else if fromLong[fn] {
+				where = "recvlong"
+			}
+			for _, k := range sinks[fn] {
+				outsideSem = append(outsideSem, where+":"+k)
+			}
+			for callee := range cs {
+				if callee == "triggerSending" || !desc[callee] {
+					continue
+				}
+				reg, wire := does(callee)
+				switch {
+				case reg && wire:
+					outsideSem = append(outsideSem, where+":register+wire")
+				case reg:
+					outsideSem = append(outsideSem, where+":register")
+				case wire:
+					outsideSem = append(outsideSem, where+":wire")
+				}
+			}
+		}
+		sort.Strings(outsideSem)
+		for i := range outsideSem {
+			outsideSem[i] = `"` + outsideSem[i] + `"`
+		}
 		list := func(m map[string]bool) string {
 			var l []string
 			for k := range m {
@@ -118,8 +218,11 @@ func init() {
 		w.P("def registeringFunctions : List String := %s", list(registers))
 		w.P("/-- connection.go: the functions below `triggerSending` (name-based call graph) from which those are reachable -/")
 		w.P("def sendingFunctions : List String := %s", list(reach))
-		w.P("/-- connection.go: call edges from functions NOT below `triggerSending` into a sending function (or to SentPacket itself) -/")
+		w.P("/-- connection.go: call edges from functions NOT below `triggerSending` into a sending function (or to SentPacket itself); informational (names) -/")
 		w.P("def sendersOutsideTriggerSending : List String := %s", list(outside))
+		w.P("/-- connection.go: every way to register a packet / put one on the wire WITHOUT passing through `triggerSending`, as")
+		w.P("    <where>:<what> with no helper names (see gofacts/x_ampshape.go): where = recv1rtt | recvlong | other -/")
+		w.P("def outsideSends : List String := [%s]", strings.Join(outsideSem, ", "))
 		w.P("/-- connection.go: functions that write to the connection directly with `conn.Write` (not through the send queue) -/")
 		w.P("def directWriters : List String := %s", list(writes))
 		return nil
